@@ -343,8 +343,8 @@ def c06(tier):
     res["states"] += dres["states"]; res["generated"] += dres["generated"]; res["ok"] += dres["ok"]
     # ill-typed mutants: the checker must reject what the typing discipline forbids
     import aikendirected as ad
-    mut = ill_typed_mutants(rng, 150 if tier == "quick" else 1500) + ad.ill_typed_table()
-    controls = ad.well_typed_controls()
+    mut = ill_typed_mutants(rng, 150 if tier == "quick" else 1500) + ad.ill_typed_table() + ad.ill_typed_misuse()
+    controls = ad.well_typed_controls() + ad.well_typed_misuse_controls()
     cobs = vlib.run_harness("aiken_run", stdin_lines=[{"id": i, "src": s, "tracings": [["all", "silent"]], "fns": []} for i, (s, _) in enumerate(controls)])
     for (s, what), o in zip(controls, cobs):
         if o["runs"][0]["check"] != "ok":
